@@ -1,0 +1,228 @@
+//go:build verif
+
+// Contracts for package delegation (C11 stake lifecycle; C02 sign/delta of the stake ledgers; C03 only the
+// named records decrease). Comment-only file, read by /verif/govc.
+
+package delegation
+
+// ---------------------------------------------------------------- ledger vocabulary
+//
+// All ledgers are keyed by the string content of the address bytes (str(addr)).
+//
+// dlgV(st)[v]        : recorded total stake of validator v                       (key "_t_<v>")
+// dlgVD(st)[v][d]    : amount delegator d has locked with validator v           (key "_e_<v>_<d>")
+// dlgDE(st)[d]       : effective (locked) total of delegator d                  (key "_d_e_<d>")
+// dlgDB(st)[d]       : bounded = matured, withdrawable amount of delegator d     (key "_d_b_<d>")
+// dlgVSum(st)[v]     : ghost running total  sum over d of dlgVD(st)[v][d]   (updated by every mutator with the
+// dlgDSum(st)[d]     : ghost running total  sum over v of dlgVD(st)[v][d]    point delta it applies, like balTotal)
+//
+// maturing list of height h (key "_m_<h>"), as a sequence:
+// dlgMLen(st)[h]     : number of entries
+// dlgMAddr(st)[h][i] : delegator address of entry i,   dlgMAmt(st)[h][i] : its amount
+// dlgMPre(st)[h][i][d]: ghost prefix sums: sum of the amounts of the entries j < i whose address is d
+//                      (the unique solution of the recurrence stated in Get/SetMatureAmounts; no recursive
+//                      spec function and no axiom is needed: the recurrence is a ghost-state invariant that
+//                      SetMatureAmounts, the only writer, re-establishes and GetMatureAmounts hands out)
+// dlgPending(st,h,d) : what delegator d has maturing at height h = the prefix sum over the whole list
+// dlgMKeep(st)[h]    : ghost output of SetMatureAmounts: length of the longest common prefix of the list
+//                      stored before and the list stored now (prefix sums up to there are unchanged)
+// dlgMObj(st)[h]     : ghost output of GetMatureAmounts: the object it returned last for height h (a stable
+//                      name for the list in loop invariants; the Go variable `mature` is reassigned later)
+//@ model dlgV(*DelegationStore) array[string]int
+//@ model dlgVD(*DelegationStore) array[string]array[string]int
+//@ model dlgDE(*DelegationStore) array[string]int
+//@ model dlgDB(*DelegationStore) array[string]int
+//@ model dlgVSum(*DelegationStore) array[string]int
+//@ model dlgDSum(*DelegationStore) array[string]int
+//@ model dlgMLen(*DelegationStore) array[int]int
+//@ model dlgMAddr(*DelegationStore) array[int]array[int]string
+//@ model dlgMAmt(*DelegationStore) array[int]array[int]int
+//@ model dlgMPre(*DelegationStore) array[int]array[int]array[string]int
+//@ model dlgMKeep(*DelegationStore) array[int]int
+//@ model dlgMObj(*DelegationStore) array[int]*MatureBlock
+//@ ghost func dlgPending(st *DelegationStore, h int, d string) int = dlgMPre(st)[h][dlgMLen(st)[h]][d]
+
+// ---------------------------------------------------------------- typed view of the State prefix (assumed)
+//
+// The eight typed accessors and the two accessors of the maturing list are assumed (they rest on C09's
+// State contracts, on T-SER round-tripping of Amount / MatureBlock and on the injectivity of the
+// fmt.Sprintf key formats, which the engine does not model). Everything above them is proved.
+// Idealisation inherited from C09 (finding D-09b): DelegationStore.Get drops the error of State.Get
+// (`dat, _ := st.state.Get(..)`), so a read refused for gas exhaustion returns amount 0 / an empty list
+// with err == nil; once the gas store is exhausted every later Set fails, so no such value is written back.
+
+//@ assume func (*DelegationStore).GetValidatorAmount
+//@   modifies nothing
+//@   ensures amount != nil && fresh(amount)
+//@   ensures err == nil ==> big(amount) == dlgV(st)[str(validatorAddress)]
+
+//@ assume func (*DelegationStore).SetValidatorAmount
+//@   modifies dlgV(st)[str(validatorAddress)], vHas(st.state), vVal(st.state)
+//@   ensures err == nil ==> dlgV(st)[str(validatorAddress)] == amt
+//@   ensures err != nil ==> dlgV(st)[str(validatorAddress)] == old(dlgV(st))[str(validatorAddress)]
+
+//@ assume func (*DelegationStore).GetValidatorDelegationAmount
+//@   modifies nothing
+//@   ensures amount != nil && fresh(amount)
+//@   ensures err == nil ==> big(amount) == dlgVD(st)[str(validatorAddress)][str(delegatorAddress)]
+
+//@ assume func (*DelegationStore).SetValidatorDelegationAmount
+//@   modifies dlgVD(st)[str(validatorAddress)], vHas(st.state), vVal(st.state)
+//@   ensures err == nil ==> dlgVD(st)[str(validatorAddress)] == old(dlgVD(st))[str(validatorAddress)][str(delegatorAddress) := amt]
+//@   ensures err != nil ==> dlgVD(st)[str(validatorAddress)] == old(dlgVD(st))[str(validatorAddress)]
+
+//@ assume func (*DelegationStore).GetDelegatorEffectiveAmount
+//@   modifies nothing
+//@   ensures amount != nil && fresh(amount)
+//@   ensures err == nil ==> big(amount) == dlgDE(st)[str(delegatorAddress)]
+
+//@ assume func (*DelegationStore).SetDelegatorEffectiveAmount
+//@   modifies dlgDE(st)[str(delegatorAddress)], vHas(st.state), vVal(st.state)
+//@   ensures err == nil ==> dlgDE(st)[str(delegatorAddress)] == amt
+//@   ensures err != nil ==> dlgDE(st)[str(delegatorAddress)] == old(dlgDE(st))[str(delegatorAddress)]
+
+//@ assume func (*DelegationStore).GetDelegatorBoundedAmount
+//@   modifies nothing
+//@   ensures amount != nil && fresh(amount)
+//@   ensures err == nil ==> big(amount) == dlgDB(st)[str(delegatorAddress)]
+
+//@ assume func (*DelegationStore).SetDelegatorBoundedAmount
+//@   modifies dlgDB(st)[str(delegatorAddress)], vHas(st.state), vVal(st.state)
+//@   ensures err == nil ==> dlgDB(st)[str(delegatorAddress)] == amt
+//@   ensures err != nil ==> dlgDB(st)[str(delegatorAddress)] == old(dlgDB(st))[str(delegatorAddress)]
+
+// The maturing list. SetMatureAmounts sorts the list by address before storing it; every reader only
+// adds up amounts per address, so the sequence model ignores that permutation (assumed with the rest).
+// Recorded amounts are non-negative (C02.sign is a precondition of SetMatureAmounts).
+//@ assume func (*DelegationStore).GetMatureAmounts
+//@   modifies dlgMObj(st)[version]
+//@   ensures mature != nil && fresh(mature) && mature.Height == version && dlgMObj(st)[version] == mature
+//@   ensures err == nil ==> len(mature.Data) == dlgMLen(st)[version] && dlgMLen(st)[version] >= 0
+//@   ensures err == nil ==> forall i int :: 0 <= i && i < len(mature.Data) ==> mature.Data[i] != nil && fresh(mature.Data[i]) && mature.Data[i].Amount >= 0
+//@   ensures err == nil ==> forall i int :: 0 <= i && i < len(mature.Data) ==> str(mature.Data[i].Address) == dlgMAddr(st)[version][i] && mature.Data[i].Amount == dlgMAmt(st)[version][i]
+//@   ensures err == nil ==> forall i int :: 0 <= i && i < dlgMLen(st)[version] ==> dlgMAmt(st)[version][i] >= 0
+//@   ensures dlgMLen(st)[version] >= 0 && (forall i int, d string :: 0 <= i && i <= dlgMLen(st)[version] ==> dlgMPre(st)[version][i][d] >= 0)
+//@   ensures forall d string :: dlgMPre(st)[version][0][d] == 0
+//@   ensures forall i int, d string :: 0 <= i && i < dlgMLen(st)[version] ==> dlgMPre(st)[version][i + 1][d] == dlgMPre(st)[version][i][d] + (dlgMAddr(st)[version][i] == d ? dlgMAmt(st)[version][i] : 0)
+
+//@ assume func (*DelegationStore).SetMatureAmounts
+//@   requires mature != nil
+//@   requires forall i int :: 0 <= i && i < len(mature.Data) ==> mature.Data[i] != nil && mature.Data[i].Amount >= 0     // C02.sign
+//@   modifies dlgMLen(st)[version], dlgMAddr(st)[version], dlgMAmt(st)[version], dlgMPre(st)[version], dlgMKeep(st)[version], elems(mature.Data), vHas(st.state), vVal(st.state)
+//@   ensures err == nil ==> dlgMLen(st)[version] == old(len(mature.Data))
+//@   ensures err == nil ==> forall i int :: 0 <= i && i < old(len(mature.Data)) ==> dlgMAddr(st)[version][i] == old(str(mature.Data[i].Address)) && dlgMAmt(st)[version][i] == old(mature.Data[i].Amount)
+//@   ensures err == nil ==> forall d string :: dlgMPre(st)[version][0][d] == 0
+//@   ensures err == nil ==> forall i int, d string :: 0 <= i && i < dlgMLen(st)[version] ==> dlgMPre(st)[version][i + 1][d] == dlgMPre(st)[version][i][d] + (dlgMAddr(st)[version][i] == d ? dlgMAmt(st)[version][i] : 0)
+//@   ensures err == nil ==> 0 <= dlgMKeep(st)[version] && dlgMKeep(st)[version] <= old(dlgMLen(st))[version] && dlgMKeep(st)[version] <= dlgMLen(st)[version]
+//@   ensures err == nil ==> forall i int, d string :: 0 <= i && i <= dlgMKeep(st)[version] ==> dlgMPre(st)[version][i][d] == old(dlgMPre(st))[version][i][d]
+//@   ensures err == nil ==> dlgMKeep(st)[version] == old(dlgMLen(st))[version] || dlgMKeep(st)[version] == dlgMLen(st)[version] || dlgMAddr(st)[version][dlgMKeep(st)[version]] != old(dlgMAddr(st))[version][dlgMKeep(st)[version]] || dlgMAmt(st)[version][dlgMKeep(st)[version]] != old(dlgMAmt(st))[version][dlgMKeep(st)[version]]
+//@   ensures err != nil ==> dlgMLen(st)[version] == old(dlgMLen(st))[version] && dlgMAddr(st)[version] == old(dlgMAddr(st))[version] && dlgMAmt(st)[version] == old(dlgMAmt(st))[version] && dlgMPre(st)[version] == old(dlgMPre(st))[version]
+
+// ---------------------------------------------------------------- mutators (proved)
+
+//@ func (*DelegationStore).AddToAddress
+//@   requires st != nil
+//@   requires amount >= 0                                                                                                     // C02.sign
+//@   modifies dlgV(st)[str(validatorAddress)], dlgVD(st)[str(validatorAddress)], dlgDE(st)[str(delegatorAddress)], dlgVSum(st), dlgDSum(st), vHas(st.state), vVal(st.state)
+//@   update dlgVSum(st) := old(dlgVSum(st))[str(validatorAddress) := old(dlgVSum(st))[str(validatorAddress)] + (dlgVD(st)[str(validatorAddress)][str(delegatorAddress)] - old(dlgVD(st))[str(validatorAddress)][str(delegatorAddress)])]
+//@   update dlgDSum(st) := old(dlgDSum(st))[str(delegatorAddress) := old(dlgDSum(st))[str(delegatorAddress)] + (dlgVD(st)[str(validatorAddress)][str(delegatorAddress)] - old(dlgVD(st))[str(validatorAddress)][str(delegatorAddress)])]
+//@   ensures err == nil ==> dlgV(st)[str(validatorAddress)] == old(dlgV(st))[str(validatorAddress)] + amount                  // C11.delta
+//@   ensures err == nil ==> dlgVD(st)[str(validatorAddress)] == old(dlgVD(st))[str(validatorAddress)][str(delegatorAddress) := old(dlgVD(st))[str(validatorAddress)][str(delegatorAddress)] + amount]   // C11.delta
+//@   ensures err == nil ==> dlgDE(st)[str(delegatorAddress)] == old(dlgDE(st))[str(delegatorAddress)] + amount                // C11.delta
+//@   ensures err == nil ==> forall x string :: dlgV(st)[x] - dlgVSum(st)[x] == old(dlgV(st))[x] - old(dlgVSum(st))[x]         // C11.stake-sum
+//@   ensures err == nil ==> forall x string :: dlgDE(st)[x] - dlgDSum(st)[x] == old(dlgDE(st))[x] - old(dlgDSum(st))[x]       // C11.stake-sum
+//@   ensures forall x string :: dlgV(st)[x] >= old(dlgV(st))[x] && dlgDE(st)[x] >= old(dlgDE(st))[x]                          // C03.no-decrease
+//@   ensures forall x string, y string :: dlgVD(st)[x][y] >= old(dlgVD(st))[x][y]                                             // C03.no-decrease
+//@   claims err != nil ==> forall x string :: dlgV(st)[x] - dlgVSum(st)[x] == old(dlgV(st))[x] - old(dlgVSum(st))[x]          // C11.stake-sum-on-error
+
+// MinusFromAddress writes the validator total before it checks the (validator, delegator) record:
+// a failing call can leave the total decreased (claims clause below; used at block level by the
+// allegation penalty in identity/validator_set_allegation.go, where no tx session rolls it back).
+//@ func (*DelegationStore).MinusFromAddress
+//@   requires st != nil
+//@   requires coin >= 0                                                                                                       // C02.sign
+//@   modifies dlgV(st)[str(validatorAddress)], dlgVD(st)[str(validatorAddress)], dlgDE(st)[str(delegatorAddress)], dlgVSum(st), dlgDSum(st), vHas(st.state), vVal(st.state)
+//@   update dlgVSum(st) := old(dlgVSum(st))[str(validatorAddress) := old(dlgVSum(st))[str(validatorAddress)] + (dlgVD(st)[str(validatorAddress)][str(delegatorAddress)] - old(dlgVD(st))[str(validatorAddress)][str(delegatorAddress)])]
+//@   update dlgDSum(st) := old(dlgDSum(st))[str(delegatorAddress) := old(dlgDSum(st))[str(delegatorAddress)] + (dlgVD(st)[str(validatorAddress)][str(delegatorAddress)] - old(dlgVD(st))[str(validatorAddress)][str(delegatorAddress)])]
+//@   ensures err == nil ==> dlgV(st)[str(validatorAddress)] == old(dlgV(st))[str(validatorAddress)] - coin                    // C11.delta
+//@   ensures err == nil ==> dlgVD(st)[str(validatorAddress)] == old(dlgVD(st))[str(validatorAddress)][str(delegatorAddress) := old(dlgVD(st))[str(validatorAddress)][str(delegatorAddress)] - coin]   // C11.delta
+//@   ensures err == nil ==> dlgDE(st)[str(delegatorAddress)] == old(dlgDE(st))[str(delegatorAddress)] - coin                  // C11.delta
+//@   ensures err == nil ==> old(dlgV(st))[str(validatorAddress)] >= coin && old(dlgVD(st))[str(validatorAddress)][str(delegatorAddress)] >= coin && old(dlgDE(st))[str(delegatorAddress)] >= coin   // C02.non-negative
+//@   ensures err == nil ==> forall x string :: dlgV(st)[x] - dlgVSum(st)[x] == old(dlgV(st))[x] - old(dlgVSum(st))[x]         // C11.stake-sum
+//@   ensures err == nil ==> forall x string :: dlgDE(st)[x] - dlgDSum(st)[x] == old(dlgDE(st))[x] - old(dlgDSum(st))[x]       // C11.stake-sum
+//@   ensures forall x string :: dlgV(st)[x] < old(dlgV(st))[x] ==> x == str(validatorAddress)                                 // C03.only-named-decrease
+//@   ensures forall x string :: dlgDE(st)[x] < old(dlgDE(st))[x] ==> x == str(delegatorAddress)                               // C03.only-named-decrease
+//@   ensures forall x string, y string :: dlgVD(st)[x][y] < old(dlgVD(st))[x][y] ==> x == str(validatorAddress) && y == str(delegatorAddress)   // C03.only-named-decrease
+//@   ensures forall x string :: dlgV(st)[x] <= old(dlgV(st))[x] && dlgDE(st)[x] <= old(dlgDE(st))[x]                          // C02.no-increase
+//@   claims err != nil ==> forall x string :: dlgV(st)[x] - dlgVSum(st)[x] == old(dlgV(st))[x] - old(dlgVSum(st))[x]          // C11.stake-sum-on-error
+
+//@ func (*DelegationStore).Stake
+//@   requires st != nil
+//@   requires amount >= 0                                                                                                     // C02.sign
+//@   modifies dlgV(st)[str(validatorAddress)], dlgVD(st)[str(validatorAddress)], dlgDE(st)[str(delegatorAddress)], dlgVSum(st), dlgDSum(st), vHas(st.state), vVal(st.state)
+//@   ensures err == nil ==> dlgV(st)[str(validatorAddress)] == old(dlgV(st))[str(validatorAddress)] + amount                  // C11.delta
+//@   ensures err == nil ==> dlgVD(st)[str(validatorAddress)] == old(dlgVD(st))[str(validatorAddress)][str(delegatorAddress) := old(dlgVD(st))[str(validatorAddress)][str(delegatorAddress)] + amount]   // C11.delta
+//@   ensures err == nil ==> dlgDE(st)[str(delegatorAddress)] == old(dlgDE(st))[str(delegatorAddress)] + amount                // C11.delta
+//@   ensures err == nil ==> forall x string :: dlgV(st)[x] - dlgVSum(st)[x] == old(dlgV(st))[x] - old(dlgVSum(st))[x]         // C11.stake-sum
+//@   ensures err == nil ==> forall x string :: dlgDE(st)[x] - dlgDSum(st)[x] == old(dlgDE(st))[x] - old(dlgDSum(st))[x]       // C11.stake-sum
+//@   ensures forall x string :: dlgV(st)[x] >= old(dlgV(st))[x] && dlgDE(st)[x] >= old(dlgDE(st))[x]                          // C03.no-decrease
+//@   ensures forall x string, y string :: dlgVD(st)[x][y] >= old(dlgVD(st))[x][y]                                             // C03.no-decrease
+
+// Unstake: effective -> maturing. The amount leaves the three effective ledgers and one entry
+// (delegator, coin) is appended to the maturing list of `height`; nothing becomes withdrawable.
+//@ func (*DelegationStore).Unstake
+//@   requires st != nil
+//@   requires coin >= 0                                                                                                       // C02.sign
+//@   modifies dlgV(st)[str(validatorAddress)], dlgVD(st)[str(validatorAddress)], dlgDE(st)[str(delegatorAddress)], dlgVSum(st), dlgDSum(st), dlgMLen(st)[height], dlgMAddr(st)[height], dlgMAmt(st)[height], dlgMPre(st)[height], dlgMKeep(st)[height], dlgMObj(st)[height], vHas(st.state), vVal(st.state)
+//@   ensures err == nil ==> dlgV(st)[str(validatorAddress)] == old(dlgV(st))[str(validatorAddress)] - coin                    // C11.delta
+//@   ensures err == nil ==> dlgVD(st)[str(validatorAddress)] == old(dlgVD(st))[str(validatorAddress)][str(delegatorAddress) := old(dlgVD(st))[str(validatorAddress)][str(delegatorAddress)] - coin]   // C11.delta
+//@   ensures err == nil ==> dlgDE(st)[str(delegatorAddress)] == old(dlgDE(st))[str(delegatorAddress)] - coin                  // C11.delta
+//@   ensures err == nil ==> old(dlgVD(st))[str(validatorAddress)][str(delegatorAddress)] >= coin                              // C11.unstake-covered
+//@   ensures err == nil ==> forall x string :: dlgV(st)[x] - dlgVSum(st)[x] == old(dlgV(st))[x] - old(dlgVSum(st))[x]         // C11.stake-sum
+//@   ensures err == nil ==> forall x string :: dlgDE(st)[x] - dlgDSum(st)[x] == old(dlgDE(st))[x] - old(dlgDSum(st))[x]       // C11.stake-sum
+//@   ensures err == nil ==> dlgMLen(st)[height] == old(dlgMLen(st))[height] + 1 && dlgMAddr(st)[height][old(dlgMLen(st))[height]] == str(delegatorAddress) && dlgMAmt(st)[height][old(dlgMLen(st))[height]] == coin   // C11.maturity-recorded
+//@   ensures err == nil ==> forall i int :: 0 <= i && i < old(dlgMLen(st))[height] ==> dlgMAddr(st)[height][i] == old(dlgMAddr(st))[height][i] && dlgMAmt(st)[height][i] == old(dlgMAmt(st))[height][i]   // C11.maturity-recorded
+//@   ensures err == nil ==> forall d string :: dlgPending(st, height, d) == old(dlgPending(st, height, d)) + (d == str(delegatorAddress) ? coin : 0)   // C11.maturity-recorded
+//@   ensures forall x string :: dlgV(st)[x] < old(dlgV(st))[x] ==> x == str(validatorAddress)                                 // C03.only-named-decrease
+//@   ensures forall x string :: dlgDE(st)[x] < old(dlgDE(st))[x] ==> x == str(delegatorAddress)                               // C03.only-named-decrease
+//@   ensures forall x string, y string :: dlgVD(st)[x][y] < old(dlgVD(st))[x][y] ==> x == str(validatorAddress) && y == str(delegatorAddress)   // C03.only-named-decrease
+//@   claims err != nil ==> forall x string :: dlgV(st)[x] - dlgVSum(st)[x] == old(dlgV(st))[x] - old(dlgVSum(st))[x]          // C11.stake-sum-on-error
+//@   claims err != nil ==> dlgV(st)[str(validatorAddress)] == old(dlgV(st))[str(validatorAddress)] && dlgDE(st)[str(delegatorAddress)] == old(dlgDE(st))[str(delegatorAddress)] && dlgVD(st)[str(validatorAddress)] == old(dlgVD(st))[str(validatorAddress)]   // C11.error-unchanged
+
+// Withdraw: only the bounded (matured) ledger of the delegator is debited, never below zero.
+// The validator argument is ignored by the code: bounded funds are pooled per delegator.
+//@ func (*DelegationStore).Withdraw
+//@   requires st != nil
+//@   requires coin >= 0                                                                                                       // C02.sign
+//@   modifies dlgDB(st)[str(delegatorAddress)], vHas(st.state), vVal(st.state)
+//@   ensures err == nil ==> dlgDB(st)[str(delegatorAddress)] == old(dlgDB(st))[str(delegatorAddress)] - coin                  // C11.delta
+//@   ensures err == nil ==> old(dlgDB(st))[str(delegatorAddress)] >= coin                                                     // C11.withdraw-covered
+//@   ensures err != nil ==> dlgDB(st)[str(delegatorAddress)] == old(dlgDB(st))[str(delegatorAddress)]                         // C11.error-unchanged
+
+// UpdateWithdrawReward(h): maturing(h) -> bounded. Proved: no bounded amount decreases and every delegator's
+// bounded amount grows by at most what he had maturing at h (nothing unlocks that was not recorded for h).
+// Claimed (the code swallows every error and still clears the list, or returns early without clearing it):
+// the move is exact and the list of h is empty afterwards.
+//@ func (*DelegationStore).UpdateWithdrawReward
+//@   requires st != nil
+//@   modifies dlgDB(st), dlgMLen(st)[height], dlgMAddr(st)[height], dlgMAmt(st)[height], dlgMPre(st)[height], dlgMKeep(st)[height], dlgMObj(st)[height], vHas(st.state), vVal(st.state)
+//@   invariant loop1: 0 <= $i && $i <= dlgMLen(st)[height] && dlgMLen(st)[height] == old(dlgMLen(st))[height] && dlgMAddr(st)[height] == old(dlgMAddr(st))[height] && dlgMAmt(st)[height] == old(dlgMAmt(st))[height] && dlgMPre(st)[height] == old(dlgMPre(st))[height]   // C11.mature-bound
+//@   invariant loop1: forall d string :: old(dlgDB(st))[d] <= dlgDB(st)[d] && dlgDB(st)[d] <= old(dlgDB(st))[d] + dlgMPre(st)[height][$i][d]   // C11.mature-bound
+//@   invariant loop1: dlgMObj(st)[height] != nil && len(dlgMObj(st)[height].Data) == dlgMLen(st)[height] && (forall j int :: 0 <= j && j < len(dlgMObj(st)[height].Data) ==> dlgMObj(st)[height].Data[j] != nil && str(dlgMObj(st)[height].Data[j].Address) == dlgMAddr(st)[height][j] && dlgMObj(st)[height].Data[j].Amount == dlgMAmt(st)[height][j])   // C11.mature-bound
+//@   ensures forall d string :: old(dlgDB(st))[d] <= dlgDB(st)[d]                                                             // C11.mature-bound
+//@   ensures forall d string :: dlgDB(st)[d] <= old(dlgDB(st))[d] + old(dlgPending(st, height, d))                            // C11.mature-bound
+//@   claims forall d string :: dlgDB(st)[d] == old(dlgDB(st))[d] + old(dlgPending(st, height, d))                             // C11.mature-exact
+//@   claims dlgMLen(st)[height] == 0                                                                                          // C11.mature-once
+//@   claims forall d string :: dlgDB(st)[d] + dlgPending(st, height, d) <= old(dlgDB(st))[d] + old(dlgPending(st, height, d))     // C11.mature-conserve
+
+// read-only scan of the maturing lists of `count` heights (used by the stake handler and the query service)
+//@ func (*DelegationStore).GetMaturedPendingAmount
+//@   requires st != nil
+//@   modifies dlgMObj(st)
+
+// re-aiming the store at another State (app: delegators.WithState(deliver)). The ledgers are a view of the State
+// the store is aimed at: they are listed in `modifies` so that callers know nothing about them afterwards.
+//@ func (*DelegationStore).WithState
+//@   requires st != nil
+//@   modifies st.state, dlgV(st), dlgVD(st), dlgDE(st), dlgDB(st), dlgVSum(st), dlgDSum(st), dlgMLen(st), dlgMAddr(st), dlgMAmt(st), dlgMPre(st), dlgMKeep(st), dlgMObj(st)
+//@   ensures result == st && st.state == state
